@@ -241,6 +241,19 @@ func golubKahanSVD(inSitu *InSitu, epsilon float64) (Matrix, Matrix, Matrix, err
       }
     }
   }
+  // singular values must be non-negative, flip the sign of negative
+  // diagonal entries and of the respective right singular vectors
+  for i := 0; i < n; i++ {
+    if b := B.At(i,i); b.GetFloat64() < 0.0 {
+      b.Neg(b)
+      if V != nil {
+        for j := 0; j < n; j++ {
+          v := V.At(j,i)
+          v.Neg(v)
+        }
+      }
+    }
+  }
   if U != nil {
     U = U.T()
   }
